@@ -144,6 +144,7 @@ type buildSpec struct {
 	overlay string // "" | "globals" | "instr"
 	pkg     string // package to build, default ./cmd/vwork
 	gcflags string
+	goarch  string // cross-build (386: the portable code with a 32-bit int; runs on this host)
 }
 
 var (
@@ -258,6 +259,9 @@ func buildWorker(bs buildSpec) (string, error) {
 	if bs.gcflags != "" {
 		args = append(args, "-gcflags", bs.gcflags)
 	}
+	if bs.goarch != "" {
+		env = append(env, "GOARCH="+bs.goarch)
+	}
 	pkg := bs.pkg
 	if pkg == "" {
 		pkg = "./cmd/vwork"
@@ -299,6 +303,7 @@ var specs = map[string]buildSpec{
 	"instr-race":   {name: "instr-race", race: true, overlay: "instr"},
 	"plain":        {name: "plain"},
 	"shim":         {name: "shim", overlay: "shim"},
+	"386":          {name: "386", overlay: "globals", goarch: "386"},
 }
 
 // ---------- running workers ----------
